@@ -82,6 +82,18 @@ CHECKS = {
        "mixtures, sequences of downlinks) with state snapshots, and an independent oracle decoding the next two uplinks (order, copies, sticky) and checking ACK => effect / NAK => unchanged.",
   note=COMMON_NOTE + "Regional validity (band limits, defined data rates, offset limits) in the theorems refers to the tables regenerated from /repo by tools/rs2v/regiontables.py; TX power index ranges likewise. NbTrans is not implemented by the stack and not judged.",
   tech="machine-checked proof in Coq (per-command atomicity lemmas) + translator-regenerated regional tables + exhaustive-field MAC-history correspondence + independent answer/effect oracle", ref="6 C08"),
+ "C09": dict(
+  text="Coq theorems (Props/C09.v). Dynamic plans: the invariant dyn_ok (16 slots, every defined channel inside the band of the regenerated table, join channels defined on the default join frequencies) "
+       "holds initially (sweep over the regenerated tables) and is kept by a JoinAccept CFList, NewChannelReq and DlChannelReq; under it a data uplink goes out on a defined channel, enabled in the mask "
+       "left in force, in band, at the configured region-defined data rate, a join request on a default join frequency; fixed plans: a mask-driven data uplink uses an enabled channel of the uplink map "
+       "whose kind (125/500 kHz) matches the bandwidth of the data rate; the join data rates of the regenerated table have the bandwidth of their channel kind; after the fall-back a usable channel "
+       "always exists and the fall-back changes nothing when one existed; the search ends at the first draw that hits a usable channel (progress); conducted power <= min(127, the limit handed to "
+       "adjust_power) and <= EIRP - gain. PARTIAL: (1) the literal 'terminates for every random stream' is REFUTED for the rejection samplers (C09_termination_every_stream_refuted_*: known finding); "
+       "(2) the join-bias data paths and the lifting of dyn_ok through whole MAC histories are covered by the correspondence + oracle only. Tied to the code by MAC histories over board powers 0..255, "
+       "gains -128..127, join bias, CFLists, LinkADRReq blocks, NewChannelReq/DlChannelReq, set_datarate, ADR back-off, with a snapshot around every transmission and all 64 outcomes of the first channel draw "
+       "from reached states; every TX judged by band / channel-map / data-rate / power rules written from RP002.",
+  note=COMMON_NOTE + "Region tables (bands, channel maps, data rates, join data rates, EIRP) are regenerated from /repo by tools/rs2v/regiontables.py. The oracle reads the channel plan / mask from the hook's snapshot.",
+  tech="machine-checked proof in Coq (plan invariant + selection legality + fall-back + power bound; termination on every stream refuted by a witness) + translator-regenerated tables + MAC-history correspondence with exhaustive first-draw enumeration + RP002 oracle", ref="6 C09"),
  "C10": dict(
   text="Coq theorems (Props/C10.v): the RX1 data-rate function of each of the 9 regions equals the RP002 rule (EU/AS/IN: max(dr-off,0); US915: min(13,max(8,10+dr-off)); AU915: "
        "min(13,max(8,8+dr-off))) on the whole scope where RP002 defines it (sweep of all 9x16x8 inputs of the regenerated tables, lifted by forallb_forall) and is TOTAL (no panic, "
